@@ -104,6 +104,11 @@ CORPUS = [
     # D9: size field close to 2^32 in a nested header
     "riff L 52494646 4d445330 1 C 64617461 h:0102030405060708 | w32:16:4294967280",
     "riff L 52494646 4d445330 1 C 64617461 h:0102030405060708 | w32:16:4294967295",
+    # aliasing: a list added to itself (`r.add_chunk(r)`) gets a COPY of itself as its last child
+    "riff S 52494646 4d445330 0",
+    "riff S 52494646 4d445330 1 C 64617461 h:010203",
+    "riff S 52494646 4d445330 2 C 64617461 h:0102030405 L 4c495354 6162 1 C 66666d74 h:01",
+    "riff L 52494646 4d445330 2 S 4c495354 61626364 1 C 64617461 h:0102 C 65666768 h:03",
 ]
 
 
